@@ -33,24 +33,21 @@ mod imp {
 
 #[cfg(all(feature = "mt", not(feature = "l1")))]
 mod imp {
+    //! L2: real multi-threaded tokio, hooks off
     use super::*;
-    use std::sync::OnceLock;
     use std::sync::Mutex;
     use std::time::Instant;
 
     static START: Mutex<Option<Instant>> = Mutex::new(None);
     pub fn reset_clock() {
-        *START.lock().unwrap() = Some(Instant::now());
+        *START.lock().unwrap_or_else(|e| e.into_inner()) = Some(Instant::now());
     }
     pub fn now_and_task() -> (u64, u32) {
-        let t = START.lock().unwrap().map(|s| s.elapsed().as_nanos() as u64).unwrap_or(0);
-        let task = tokio::task::try_id().map(|i| {
-            // tokio ids are opaque; use their Display digits
-            i.to_string().parse::<u64>().unwrap_or(0) as u32
-        }).unwrap_or(u32::MAX);
+        let t = START.lock().unwrap_or_else(|e| e.into_inner()).map(|s| s.elapsed().as_nanos() as u64).unwrap_or(0);
+        let task = tokio::task::try_id().map(|i| i.to_string().parse::<u64>().unwrap_or(0) as u32).unwrap_or(u32::MAX);
         (t, task)
     }
-    /// one unit = 200 µs of real time in L2
+    /// one unit = 200 us of real time in L2
     pub const UNIT_US: u64 = 200;
     pub fn sleep(units: u64) -> SendFut {
         Box::pin(tokio::time::sleep(std::time::Duration::from_micros(units * UNIT_US)))
@@ -58,8 +55,6 @@ mod imp {
     pub fn yield_now() -> SendFut {
         Box::pin(tokio::task::yield_now())
     }
-    #[allow(dead_code)]
-    fn _unused(_: OnceLock<()>) {}
 }
 
 #[cfg(all(not(feature = "l1"), not(feature = "mt")))]
